@@ -488,3 +488,13 @@ Fixpoint last_touch (h : list timed) (key : bytes) (acc : option Z) : option Z :
       | _ => last_touch rest key acc
       end
   end.
+
+(* ------------------------------------------------------------------ a qtype table indexed by qtype with unfilled slots *)
+(* NOT the code: cacheKey rendered through an array of pre-computed strings that is only bounds-checked, so that
+   every type below the array length without a pre-computed string gets an empty suffix.  Kept for the witness. *)
+Definition qtype_str_array (q : N) : bytes :=
+  if N.ltb q 34 then
+    (if N.eqb q 1 || N.eqb q 2 || N.eqb q 5 || N.eqb q 12 || N.eqb q 15 || N.eqb q 16 || N.eqb q 28 || N.eqb q 33 then digits q else [])
+  else digits q.
+Definition key_of_array (name : bytes) (qt : N) (s : scope) : bytes :=
+  response_cache_key (lower (fqdn name) ++ qtype_str_array qt) s.
